@@ -9,6 +9,7 @@ import Flowjaxv.Proofs.BnafMass
 import Flowjaxv.Proofs.PermMass
 import Flowjaxv.Proofs.FlowLayers
 import Flowjaxv.Proofs.NetMassMeas
+import Flowjaxv.Proofs.NetMassSpline
 /-!
 # C04 — exp(log_prob) integrates to one, and samples are distributed according to that density
 
@@ -1012,6 +1013,142 @@ theorem relu_flow_instance {K : Type} (smp : K → List ℝ → Fin 2 → ℝ) (
   rcases hb with rfl | rfl
   · exact (maf_continuous_layer mafReluExample mafReluExample_wellShaped relu_continuous (1 / 2) (-1) c).2
   · exact (coupling_relu_layer 1 2 2 (by norm_num) couplingReluExample 0 1 c couplingReluExample_length).1
+
+/-! ### 13b. the rational-quadratic-spline transformer: joint measurability DISCHARGED
+
+`Flows.rqsFamily cfg init` (`Model/FlowsPre.lean`) is the `transformer_constructor` of `RationalQuadraticSpline(knots, interval)`:
+`row + init` is split into raw widths / heights / derivatives, passed through the GENERATED `_real_to_increasing_on_interval` and
+derivative lambda (`Gen/Params.lean`); the methods are the GENERATED `transform / inverse / …_and_log_det` (`Gen/Leaves.lean`).
+`Proofs/NetMassSpline.lean`: a parameter row that is a fixed list of measurable functions of the point (`NetMass.MeasL`; every
+continuous conditioner row is one) stays one through softmax / cumsum / pad; `searchsorted` at a measurable point is a measurable
+integer; `getItem` at a measurable integer index is measurable; so the three methods are jointly measurable in (point, coordinate). -/
+section SplineMeas
+
+/-- **the spline methods are jointly measurable in (parameters, argument)** over ANY measurable parameter space `A`: for every
+parameter row `row : A → List ℝ` that is a fixed list of measurable functions (`NetMass.MeasL`), every configuration and `init`
+(no well-formedness needed), `(a, t) ↦ transform / inverse / inverse-log-det of rqsFamily cfg init (row a) at t` are measurable -/
+theorem spline_joint_measurable {A : Type} [MeasurableSpace A] (cfg : Flows.RqsCfg ℝ) (init : List ℝ) {row : A → List ℝ}
+    (hrow : NetMass.MeasL row) :
+    (Measurable fun p : A × ℝ => (Flows.rqsFamily cfg init (row p.1)).fwd p.2 ()) ∧
+    (Measurable fun p : A × ℝ => (Flows.rqsFamily cfg init (row p.1)).inv p.2 ()) ∧
+    (Measurable fun p : A × ℝ => ((Flows.rqsFamily cfg init (row p.1)).invLd p.2 ()).2) :=
+  NetMass.rqsFamily_joint_meas cfg init hrow
+
+/-- **`CouplingMeas` holds for the spline family**: every conditioner continuous in the first block (`relu` networks included)
+with constant output length `(n − d)·np`, every spline configuration (knots, interval, softmax_adjust, min_derivative), every
+`init`, every `d`, `n`, every condition -/
+theorem coupling_spline_meas (d n np : ℕ) (cnd : List ℝ → List ℝ) (cfg : Flows.RqsCfg ℝ) (init : List ℝ) (c : List ℝ)
+    (hc : NetMass.ContC (fun w : Fin n → ℝ => cnd ((List.ofFn w).take d ++ c)))
+    (hlen : ∀ z, (cnd z).length = (n - d) * np) :
+    NetMass.CouplingMeas d n cnd (Flows.rqsFamily cfg init) c :=
+  NetMass.coupling_spline_meas d n np cnd cfg init c hc hlen
+
+/-- **`MafMeas` holds for the spline family**: every well-shaped masked network with a continuous activation, every spline
+configuration, every `init`, every condition -/
+theorem maf_spline_meas (N : MafNet ℝ) (hN : N.WellShaped) (hact : Continuous N.act) (cfg : Flows.RqsCfg ℝ)
+    (init : List ℝ) (c : List ℝ) : NetMass.MafMeas N (Flows.rqsFamily cfg init) c :=
+  NetMass.maf_spline_meas N hN hact cfg init c
+
+/-- for EVERY conditioner output row the constructed spline is well-formed (C11 `rqs_params_wf_core` through
+`FlowsPf.rqsFamily_wf`), hence lawful on ℝ, log-det antisymmetric and satisfies the one-dimensional layer fact -/
+theorem spline_family_facts_all {cfg : Flows.RqsCfg ℝ} {init : List ℝ} (hcfg : FlowsPf.RqsCfgOK cfg init) (ps : List ℝ) :
+    (Flows.rqsFamily cfg init ps).Lawful univ univ ∧ (Flows.rqsFamily cfg init ps).LdAntisym univ ∧
+    Mass.LawOK volume (Flows.rqsFamily cfg init ps) () :=
+  spline_family_facts (FlowsPf.rqsFamily_wf hcfg ps)
+
+/-- **the spline coupling layer, any continuous conditioner**: both layer facts in both orientations, NO measurability hypothesis;
+`FlowsPf.RqsCfgOK cfg init`: `knots ≥ 1`, `init.length = 3·knots + 2`, `interval.1 < interval.2`, `softmax_adjust ≥ 0`,
+`min_derivative ≥ 0` (what the constructor enforces) -/
+theorem coupling_spline_layer_of_continuous (d n np : ℕ) (hdn : d ≤ n) (cnd : List ℝ → List ℝ) {cfg : Flows.RqsCfg ℝ}
+    {init : List ℝ} (hcfg : FlowsPf.RqsCfgOK cfg init) (c : List ℝ)
+    (hc : NetMass.ContC (fun w : Fin n → ℝ => cnd ((List.ofFn w).take d ++ c)))
+    (hlen : ∀ z, (cnd z).length = (n - d) * np) :
+    NetMass.LayerOK (NetMass.liftBij n (couplingBij d cnd (Flows.rqsFamily cfg init))) c ∧
+    NetMass.LayerOK (Gen.Invert.mk (NetMass.liftBij n (couplingBij d cnd (Flows.rqsFamily cfg init)))).toBij c :=
+  coupling_layer_measurable d n hdn cnd _ (fun ps => (spline_family_facts_all hcfg ps).1)
+    (fun ps => (spline_family_facts_all hcfg ps).2.1) (fun ps => (spline_family_facts_all hcfg ps).2.2) c
+    (coupling_spline_meas d n np cnd cfg init c hc hlen)
+
+/-- **the DEFAULT spline coupling layer** (`coupling_flow(transformer=RationalQuadraticSpline(knots, interval))`): conditioner = a
+multilayer perceptron of any depth and shapes with the `relu` activation (output length `(n − d)·np`), every accepted spline
+configuration — both layer facts, both orientations, every condition, no hypothesis left but the shapes -/
+theorem coupling_spline_layer (d n np : ℕ) (hdn : d ≤ n) (Ls : List (MaskedLinear ℝ)) {cfg : Flows.RqsCfg ℝ}
+    {init : List ℝ} (hcfg : FlowsPf.RqsCfgOK cfg init) (c : List ℝ)
+    (hlen : ∀ z, (mlpForward (fun z : ℝ => max z 0) Ls z).length = (n - d) * np) :
+    NetMass.LayerOK (NetMass.liftBij n (couplingBij d (mlpForward (fun z : ℝ => max z 0) Ls)
+      (Flows.rqsFamily cfg init))) c ∧
+    NetMass.LayerOK (Gen.Invert.mk (NetMass.liftBij n (couplingBij d (mlpForward (fun z : ℝ => max z 0) Ls)
+      (Flows.rqsFamily cfg init)))).toBij c :=
+  coupling_spline_layer_of_continuous d n np hdn _ hcfg c
+    (NetMass.mlp_conditioner_contC d n _ NetMass.relu_continuous Ls c) hlen
+
+/-- **the spline masked autoregressive layer** (`masked_autoregressive_flow(transformer=RationalQuadraticSpline(…))`): every
+well-shaped masked network whose activation is continuous (`relu` included), every accepted spline configuration — both layer
+facts, both orientations, every condition -/
+theorem maf_spline_layer (N : MafNet ℝ) (hN : N.WellShaped) (hact : Continuous N.act) {cfg : Flows.RqsCfg ℝ}
+    {init : List ℝ} (hcfg : FlowsPf.RqsCfgOK cfg init) (c : List ℝ) :
+    NetMass.LayerOK (NetMass.liftBij N.dim (mafBij N (Flows.rqsFamily cfg init))) c ∧
+    NetMass.LayerOK (Gen.Invert.mk (NetMass.liftBij N.dim (mafBij N (Flows.rqsFamily cfg init)))).toBij c :=
+  maf_layer_measurable N hN _ (fun ps => (spline_family_facts_all hcfg ps).1)
+    (fun ps => (spline_family_facts_all hcfg ps).2.1) (fun ps => (spline_family_facts_all hcfg ps).2.2) c
+    (maf_spline_meas N hN hact cfg init c)
+
+/-- non-vacuity: `RationalQuadraticSpline(knots=2, interval=(-3, 3))` with the library's `softmax_adjust = 1e-2`,
+`min_derivative = 1e-3`; `init` (2 + 2 + 4 raw values) away from the constructor's initialisation, both signs -/
+noncomputable def splineCfgExample : Flows.RqsCfg ℝ := ⟨2, (-3, 3), 1 / 100, 1 / 1000⟩
+noncomputable def splineInitExample : List ℝ := [1 / 2, -1, 0, 2, -1 / 3, 1, 0, -2]
+
+theorem splineCfgExample_ok : FlowsPf.RqsCfgOK splineCfgExample splineInitExample :=
+  ⟨by simp [splineCfgExample], by simp [splineCfgExample, splineInitExample], by norm_num [splineCfgExample],
+   by norm_num [splineCfgExample], by norm_num [splineCfgExample]⟩
+
+/-- non-vacuity (Coupling): a `relu` perceptron `1 + 1 → 2 → 8` (first block of size 1, one conditioning variable, the
+`3·2 + 2 = 8` spline parameters of the single transformed coordinate), weights of both signs -/
+noncomputable def couplingSplineExample : List (MaskedLinear ℝ) :=
+  [⟨[[true, true], [true, true]], [[1, -2], [-1, 3]], [1, -1]⟩,
+   ⟨List.replicate 8 [true, true], [[2, 1], [-1, 3], [1, 1], [-2, 1], [0, -1], [3, 2], [-1, -1], [1, 0]],
+    [0, 1, -1, 2, 0, -2, 1, 1]⟩]
+
+theorem couplingSplineExample_length (z : List ℝ) :
+    (mlpForward (fun z : ℝ => max z 0) couplingSplineExample z).length = (2 - 1) * 8 := by
+  simp [couplingSplineExample, mlpForward, MaskedLinear.apply, linearApply, MaskedLinear.unwrapW, whereMask]
+
+/-- non-vacuity (MAF): dim 2, one conditioning variable, width 2, depth 1, EIGHT parameters per coordinate, `relu` -/
+noncomputable def mafSplineExample : MafNet ℝ :=
+  { dim := 2, condDim := some 1, width := 2, depth := 1, numParams := 8,
+    weights := [[[1, -2, 3], [-1, 1, 2]],
+      [[2, 1], [-1, 3], [1, 1], [-2, 1], [0, -1], [3, 2], [-1, -1], [1, 0],
+       [1, 2], [3, -1], [-1, 1], [1, -2], [-1, 0], [2, 3], [1, -1], [0, 1]]],
+    biases := [[1, -1], [0, 1, -1, 2, 0, -2, 1, 1, 1, 0, 2, -1, -2, 0, 1, -1]], act := fun z => max z 0 }
+
+theorem mafSplineExample_wellShaped : mafSplineExample.WellShaped := by
+  refine ⟨rfl, rfl, ?_⟩
+  intro l hw hb
+  have hl : l < 2 := hw
+  interval_cases l
+  · exact ⟨3, 2, rfl, rfl, ⟨rfl, by intro row hrow; simp [mafSplineExample] at hrow; rcases hrow with rfl | rfl <;> rfl⟩, rfl⟩
+  · exact ⟨2, 16, rfl, rfl, ⟨rfl, by
+      intro row hrow; simp [mafSplineExample] at hrow
+      rcases hrow with rfl | rfl | rfl | rfl | rfl | rfl | rfl | rfl | rfl | rfl | rfl | rfl | rfl | rfl | rfl | rfl <;> rfl⟩, rfl⟩
+
+/-- a complete SPLINE flow: `StandardNormal((2,))` pushed through `Invert(MAF)` and a coupling layer, both with `relu` conditioner
+networks and the rational-quadratic-spline transformer in the constructor's parameterisation — integrates to one at EVERY
+condition -/
+theorem spline_flow_instance {K : Type} (smp : K → List ℝ → Fin 2 → ℝ) (c : List ℝ) :
+    ∫ y, Real.exp ((nestTransformed (Mass.stdNormalN 2 smp)
+      [(Gen.Invert.mk (NetMass.liftBij 2 (mafBij mafSplineExample
+          (Flows.rqsFamily splineCfgExample splineInitExample)))).toBij,
+       NetMass.liftBij 2 (couplingBij 1 (mlpForward (fun z : ℝ => max z 0) couplingSplineExample)
+          (Flows.rqsFamily splineCfgExample splineInitExample))]).logProb y c) = 1 := by
+  refine flowNd_layerOK_stack_normalised 2 _ c _ ?_ (Mass.stdNormalN_normalised 2 smp c)
+  intro b hb
+  simp only [List.mem_cons, List.not_mem_nil, or_false] at hb
+  rcases hb with rfl | rfl
+  · exact (maf_spline_layer mafSplineExample mafSplineExample_wellShaped relu_continuous splineCfgExample_ok c).2
+  · exact (coupling_spline_layer 1 2 8 (by norm_num) couplingSplineExample splineCfgExample_ok c
+      couplingSplineExample_length).1
+
+end SplineMeas
 
 end MeasurableLayers
 /-! ## ===== END 13. ===== -/
